@@ -136,11 +136,13 @@ func playRaw(h history) (res [][]int64, rep []bool, cache [][2]int64) {
 				default:
 				}
 				n := fmt.Sprintf("decoy2-%d", i%7)
-				d2.AddNode(n)
-				d2.GetNodeBy(n)
-				if i%3 == 0 {
-					d2.RemoveNode(n)
-				}
+				Catch(func() { // the decoy must never take the harness down
+					d2.AddNode(n)
+					d2.GetNodeBy(n)
+					if i%3 == 0 {
+						d2.RemoveNode(n)
+					}
+				})
 			}
 		}()
 	}
@@ -181,6 +183,9 @@ func playRaw(h history) (res [][]int64, rep []bool, cache [][2]int64) {
 			}
 			for j := len(h.keys) - 1; j >= 0; j-- {
 				if lookup(h.keys[j]) != cur[j] {
+					same = false
+				}
+				if j%7 == 0 && lookup(h.keys[j]) != cur[j] { // the same key twice in a row
 					same = false
 				}
 			}
